@@ -194,6 +194,13 @@ fn main() {
                     sc["client"]["cert"].as_bool().unwrap_or(false)
                         && sc["shim"]["client_cert"].as_bool().unwrap_or(false)
                 );
+                // fingerprints of the certificate chain the client presents (when the server asks for one)
+                let chain: Vec<J> = if b["ccert"].as_bool().unwrap_or(false) {
+                    shim::client_chain(&sc).iter().map(|d| shim::fingerprint(d)).collect()
+                } else {
+                    Vec::new()
+                };
+                b["cchain"] = json!(chain);
                 b["auth"] = json!(sc["shim"]["auth"].as_str().unwrap_or("accept"));
                 b["mode"] = json!(sc["client"]["mode"].as_str().unwrap_or("pipelined"));
             }
